@@ -1236,7 +1236,7 @@ struct SchedHarness : Harness {
 		if (solver == "block3") capped = G.n_modify_factor >= 120 ? "|at_iteration_cap" : "|converged";
 		// the two block-pivoting solvers give up silently after 3n iterations (known finding F-C11-blockpivot-itercap,
 		// listed per size class and system family so that a cap hit anywhere else is still reported)
-		std::string size_class_s = std::string(p.n <= 4 ? "|n<=4|" : "|n>4|") + prob.gets("kind");
+		std::string size_class_s = std::string(p.n <= 4 ? "|n<=4|" : p.n <= 12 ? "|n=5..12|" : p.n <= 24 ? "|n=13..24|" : p.n <= 30 ? "|n=25..30|" : "|n>30|") + prob.gets("kind");
 		const char *size_class = size_class_s.c_str();
 		if (solver == "updown") capped = G.n_modify_factor >= 3 * p.n ? std::string("|at_iteration_cap") + size_class : "|converged";
 		if (solver == "block") capped = G.n_cholesky_solve >= 3 * p.n ? std::string("|at_iteration_cap") + size_class : "|converged";
